@@ -107,7 +107,7 @@ ANM_FLOATS = [10004, 10005, 10006, 10007]
 
 ECL_06 = [(0, ""), (10, "i"), (11, "i"), (12, "i"), (43, "fff"), (45, "ff"), (46, "f"), (47, "f"), (48, "f"), (81, "fff"), (82, "iiiiffff"),
           (87, "i"), (123, "i"), (127, "i"), (49, "FF"), (51, "Ff"), (52, "IfF"), (56, "Ifff"), (76, "I"), (88, "If"), (100, "bbb"),
-          (104, "B"), (128, "h"), (93, "hhz"), (67, "hhiiffffI"), (94, ""), (96, "")]
+          (104, "B"), (128, "h"), (67, "hhiiffffI"), (94, ""), (96, "")]
 ECL_07 = [(0, ""), (1, ""), (8, "ff"), (9, "fff"), (10, "ii"), (11, "ff"), (26, "fffff"), (27, "fiiiffff"), (40, "f"), (43, "iii"), (44, "ffi"),
           (45, "i"), (46, "fff"), (48, "f"), (53, "ff"), (54, "iiff"), (59, "i"), (62, "ffff"), (63, ""), (64, "hhiiffffI")]
 ECL_08 = [(0, ""), (1, ""), (2, "i"), (3, "i"), (8, "ii"), (9, "ff"), (34, "fffff"), (35, "ffff"), (36, "fiiiffff"), (37, "f"), (62, ""), (63, "ff"),
@@ -198,7 +198,8 @@ def blob_text(words):
     return " ".join("%08x" % struct.unpack(">I", struct.pack("<I", w & 0xffffffff))[0] for w in words)
 
 
-FLOAT_BITS = [0x00000000, 0x80000000, 0x3f800000, 0xbf800000, 0x7f800000, 0xff800000, 0x7fc00000, 0x7fc00001, 0xffc00000, 0x7f800001, 0x7fffffff,
+NAN_PAYLOAD_BITS = [0x7fc00001, 0xffc00000, 0x7f800001, 0x7fffffff, 0xffffffff]     # NaNs other than the canonical quiet NaN (probe "nanbits")
+FLOAT_BITS = [0x00000000, 0x80000000, 0x3f800000, 0xbf800000, 0x7f800000, 0xff800000, 0x7fc00000,
               0x00000001, 0x007fffff, 0x00800000, 0x7f7fffff, 0x3dcccccd, 0x3eaaaaab, 0x40490fdb, 0x4b800000, 0x4b7fffff, 0x501502f9, 0x2edbe6ff,
               0x3f7fffff, 0x3f800001, 0x461c4000, 0x461c4001, 0xc61c4000, 0x1, 0x33d6bf95, 0x5d5e0b6b, 0x0da24260, 0x7149f2ca]
 
@@ -314,7 +315,10 @@ class RealGen(gen_progs.BlockGen):
                 words.append(struct.unpack("<I", struct.pack("<f", float(rng.choice(self.floats))))[0])
                 mask |= 1 << j
             elif letter in "fF":
-                words.append(rng.choice(FLOAT_BITS) if rng.random() < 0.6 else rng.getrandbits(32))
+                w = rng.choice(FLOAT_BITS) if rng.random() < 0.6 else rng.getrandbits(32)
+                if w & 0x7f800000 == 0x7f800000 and w & 0x007fffff:
+                    w = 0x7fc00000       # NaN payloads are the subject of the "nanbits" probe, not of the random programs
+                words.append(w)
             elif letter == "i" and use_mask and rng.random() < 0.3:
                 words.append(rng.choice(self.ints) & 0xffffffff)
                 mask |= 1 << j
@@ -382,34 +386,46 @@ class RealGen(gen_progs.BlockGen):
     def jump_stmt(self):
         """goto / conditional / counting jumps to any label of the function, with and without explicit time"""
         rng = self.rng
-        label = rng.choice(self.labels) if self.labels and rng.random() < 0.8 else "lab%d" % rng.randrange(1, 6)
+        fwd = not (self.labels and rng.random() < 0.8)
+        label = "lab%d" % rng.randrange(1, 6) if fwd else rng.choice(self.labels)
         s = {"jump": "goto", "label": label}
         if self.lang.jump_time and rng.random() < 0.4:
             s["time"] = rng.choice([0, 0, 1, 5, 10, 30, 100, -1, -10])
         r = rng.random()
         if not self.lang.regs or r < 0.4:
             s["k"] = "jump"
-        elif r < 0.8:
+        elif r < 0.8 or fwd or label not in self.labels:
             s.update(k="condjump", kw=rng.choice(["if", "if", "unless"]), cond=self.cond())
         else:
+            # (a counting jump to a label that is already placed, i.e. backwards; forward ones: probe "countfwd")
             dec = {"k": "xcr", "op": "--", "order": "pre", "var": reg(rng.choice(self.ints), "$")}
             s.update(k="condjump", kw="if", cond=binop(">", dec, ilit(0)) if self.lang.countjmp_gt else dec)
         return s
 
+    def ivar(self):
+        return reg(self.rng.choice(self.ints), "$")
+
+    def cmp(self, ops, float_ok=False):
+        """a comparison with at least one non-constant operand (constant conditions: probe "constcond")"""
+        rng = self.rng
+        if float_ok and self.floats and rng.random() < 0.3:
+            a, b = reg(rng.choice(self.floats), "%"), self.float_atom()
+        else:
+            a, b = self.ivar(), self.int_atom()
+        if rng.random() < 0.5:
+            a, b = b, a
+        return binop(rng.choice(ops), a, b)
+
     def cond(self):
         rng = self.rng
         r = rng.random()
-        if r < 0.55:
-            return binop(rng.choice(["==", "!=", "<", "<=", ">", ">="]), self.int_atom(), self.int_atom())
-        if r < 0.75:
-            return binop(rng.choice(["<", ">=", "==", "!=", "<=", ">"]), self.float_atom(), self.float_atom())
-        if r < 0.83:
-            return self.int_atom()
+        if r < 0.7:
+            return self.cmp(["==", "!=", "<", "<=", ">", ">="], float_ok=True)
+        if r < 0.8:
+            return self.ivar()
         if r < 0.93:
-            return binop(rng.choice(["&&", "||"]),
-                         binop(rng.choice(["==", "<"]), self.int_atom(), self.int_atom()),
-                         binop(rng.choice(["!=", ">"]), self.int_atom(), self.int_atom()))
-        return unop("!", binop("==", self.int_atom(), self.int_atom()))
+            return binop(rng.choice(["&&", "||"]), self.cmp(["==", "<"]), self.cmp(["!=", ">"]))
+        return unop("!", self.cmp(["==", "<"]))
 
     def stmt(self, depth, in_loop):
         rng = self.rng
@@ -542,8 +558,9 @@ def gen_anm(rng, lang, flavour):
         script_names += ["script%d" % s for s in scripts]
     for e, (sprites, scripts) in enumerate(plan):
         sp_text = "".join("        sprite%d: {id: %d, x: %s, y: %s, w: %s, h: %s},\n" % (s, s, f32text(rng), f32text(rng), f32text(rng), f32text(rng)) for s in sprites)
-        sf.text(ANM_ENTRY % dict(path=rng.choice(["subdir/file.png", "@R", "data/face/enemy1/face01.png", "a.png", "日本語.png"]) if e else "subdir/file%d.png" % rng.randrange(3),
-                                 has_data=rng.choice(["false", "false", '"dummy"']), w=rng.choice([1, 4, 16, 128, 512]), h=rng.choice([1, 4, 32, 512]),
+        path = rng.choice(["subdir/file.png", "@R", "data/face/enemy1/face01.png", "a.png", "日本語.png"]) if e else "subdir/file%d.png" % rng.randrange(3)
+        # ('@' paths name render targets and carry no image: with has_data: "dummy" -> probe "atpath-dummy")
+        sf.text(ANM_ENTRY % dict(path=path, has_data="false" if path.startswith("@") else rng.choice(["false", "false", '"dummy"']), w=rng.choice([1, 4, 16, 128, 512]), h=rng.choice([1, 4, 32, 512]),
                                  fmt=rng.choice([1, 3, 5, 7]), ox=rng.choice([0, 0, 3]), oy=rng.choice([0, 0, 100]), ck=rng.choice([0, 0, 0xff00ff]),
                                  mp=rng.choice([0, 0, 10]), lrs=rng.choice(["false", "false", "true"]), sprites=sp_text))
         for s in scripts:
@@ -691,6 +708,50 @@ def render_sources(sources, tag):
         texts.append("".join(p if isinstance(p, str) else out["%d:%d" % (i, j)] for j, p in enumerate(sf.parts)))
     return texts
 
+
+
+# ------------------------------------------------------------------------------------------------
+# Probes: fixed (seed-independent) minimal programs, one per input class that is known to matter.  Each
+# isolates one construct so that a finding is keyed by the construct and not by a random program.
+PROBE_F_INSTR = {"anm07": 26, "anm08": 26, "anm12": 70, "anm16": 129, "ecl06": 46, "ecl07": 40, "ecl08": 37, "std12": 7, "msg12": 27}
+PROBE_CALL = {"anm07": "ins_0();", "anm08": "ins_0();", "anm12": "ins_1();", "anm16": "ins_1();", "ecl06": "ins_0();", "ecl07": "ins_0();", "ecl08": "ins_0();",
+              "std12": "ins_0();", "msg12": "ins_0();"}
+PROBE_REG = {"anm07": "$REG[10000]", "anm08": "$REG[10000]", "anm12": "$REG[10000]", "anm16": "$REG[10000]", "ecl06": "$REG[-10001]", "ecl07": "$REG[10000]",
+             "ecl08": "$REG[10000]"}
+
+
+def wrap_minimal(lang, body):
+    """the smallest complete file of the language around one script body"""
+    if lang.fmt == "truanm":
+        return ANM_ENTRY % dict(path="a.png", has_data="false", w=4, h=4, fmt=3, ox=0, oy=0, ck=0, mp=0, lrs="false", sprites="") + "script script0 {\n%s}\n" % body
+    if lang.fmt == "truecl":
+        return "script timeline0 {}\nvoid sub0() {\n%s}\n" % body
+    if lang.fmt == "trustd":
+        return STD_HEAD_12 % dict(unk=0, objects="", instances="") + "script main {\n%s}\n" % body
+    return "meta {\n    table: {\n        0: {script: \"script0\"},\n    },\n}\nscript script0 {\n%s}\n" % body
+
+
+def probe_sources():
+    out = []
+    for lk in ("anm07", "anm12", "anm16", "ecl06", "ecl07", "ecl08"):
+        call, r = PROBE_CALL[lk], PROBE_REG[lk]
+        # conditions whose operands are all constants
+        body = "    if (3 > 100) {\n        %s\n    }\n    %s\n    if (7) {\n        %s\n    }\nagain:\n    %s\n    if (1 == 1) goto again;\n    unless (2.5 < 1.5) goto again;\n" % (call, call, call, call)
+        out.append((lk, "constcond", wrap_minimal(LANGS[lk], body)))
+        # a counting jump forwards, over a statement
+        cj = "if (--%s > 0)" % r if LANGS[lk].countjmp_gt else "if (--%s)" % r
+        body = "    %s goto fwd;\n    %s\nfwd:\n    %s\n" % (cj, call, call)
+        out.append((lk, "countfwd", wrap_minimal(LANGS[lk], body)))
+    for lk, op in sorted(PROBE_F_INSTR.items()):
+        lang = LANGS[lk]
+        mask = "@mask=0, " if lang.regs and lk != "ecl06" else ""
+        body = "".join("    ins_%d(%s@blob=\"%s\");\n" % (op, mask, blob_text([w])) for w in NAN_PAYLOAD_BITS)
+        out.append((lk, "nanbits", wrap_minimal(lang, body)))
+    # an ANM entry whose path names a render target ('@...') but asks for placeholder image data
+    out.append(("anm12", "atpath-dummy", (ANM_ENTRY % dict(path="@R", has_data='"dummy"', w=4, h=4, fmt=3, ox=0, oy=0, ck=0, mp=0, lrs="false", sprites="")) + "script script0 {\n    ins_1();\n}\n"))
+    # EoSD spell card name: a 34-byte string argument after two words
+    out.append(("ecl06", "spellname", wrap_minimal(LANGS["ecl06"], "    ins_93(0, 1, \"abc\");\n    ins_93(10, -1, \"あ\");\n")))
+    return out
 
 # ------------------------------------------------------------------------------------------------
 # User mapfiles: aliases for every instruction / register of the language, difficulty flag names, enums.
@@ -903,7 +964,7 @@ def process_binary(b, wd, pairs):
                                           src_id=e["out"])
         ev.append(e2)
         b.meta[len(ev) - 1] = dict(step="recompile", opts=opts, width=width, mapped=mapped, argv=argv2, stderr=se2[:3000], decompile_argv=argv,
-                                   decompiled=text.decode("utf-8", "replace")[:6000],
+                                   decompiled=text.decode("utf-8", "replace")[:6000] if out != data else None,
                                    same=(out == data), out_len=len(out) if out is not None else None, in_len=len(data))
         b.pairs += 1
         # scratch files are no longer needed
@@ -1005,13 +1066,13 @@ def bundled_binaries():
 
 
 QUICK_PLAN = [  # (language, flavour, count)
-    ("anm07", "blocks", 4), ("anm07", "graph", 3), ("anm07", "raw", 2), ("anm08", "mixed", 3), ("anm12", "blocks", 5), ("anm12", "graph", 4),
-    ("anm12", "raw", 3), ("anm16", "mixed", 4), ("anm16", "raw", 2),
-    ("ecl06", "blocks", 5), ("ecl06", "graph", 4), ("ecl06", "raw", 2), ("ecl07", "blocks", 5), ("ecl07", "graph", 4), ("ecl07", "raw", 2),
-    ("ecl08", "blocks", 5), ("ecl08", "graph", 4), ("ecl08", "raw", 2),
-    ("std06", "flat", 3), ("std08", "graph", 4), ("std12", "graph", 4), ("std12", "raw", 2),
-    ("msg06", "flat", 4), ("msg08", "flat", 3), ("msg09", "flat", 3), ("msg12", "flat", 4), ("msg17", "flat", 3), ("end10", "flat", 3),
-    ("mission095", "flat", 2), ("mission125", "flat", 2),
+    ("anm07", "blocks", 3), ("anm07", "graph", 2), ("anm07", "raw", 1), ("anm08", "mixed", 2), ("anm12", "blocks", 4), ("anm12", "graph", 3),
+    ("anm12", "raw", 2), ("anm16", "mixed", 3), ("anm16", "raw", 1),
+    ("ecl06", "blocks", 4), ("ecl06", "graph", 3), ("ecl06", "raw", 2), ("ecl07", "blocks", 4), ("ecl07", "graph", 3), ("ecl07", "raw", 2),
+    ("ecl08", "blocks", 4), ("ecl08", "graph", 3), ("ecl08", "raw", 2),
+    ("std06", "flat", 2), ("std08", "graph", 3), ("std12", "graph", 3), ("std12", "raw", 1),
+    ("msg06", "flat", 3), ("msg08", "flat", 2), ("msg09", "flat", 2), ("msg12", "flat", 3), ("msg17", "flat", 2), ("end10", "flat", 2),
+    ("mission095", "flat", 2), ("mission125", "flat", 1),
 ]
 
 
@@ -1026,15 +1087,18 @@ def classify(b, li, why):
             first = line.strip()
             break
     first = re.sub(r"\d+", "N", first)[:90]
-    where = os.path.basename(b.path) if b.origin == "bundled" else "generated:%s" % b.flavour
+    # input class: the bundled file, or the generator flavour / probe name
+    where = "bundled:" + os.path.basename(b.path) if b.origin == "bundled" else b.flavour
+    fmt = lang.cmd.replace(" ", "")
+    first = re.sub(r"[^A-Za-z]+", "-", first).strip("-")[:60]
     if "Total" in why:
-        return ("decompile-fails:%s:%s:%s:%s" % (lang.cmd, lang.game, where, first), "decompile of a compile-emitted/bundled binary failed: %s" % first)
+        return ("decompile-fails:%s:%s:%s" % (fmt, where, first), "decompile of a compile-emitted/bundled binary failed: %s" % first)
     if "RoundTrip" in why:
         if m.get("out_len") is None:
-            return ("recompile-fails:%s:%s:%s:%s" % (lang.cmd, lang.game, where, first), "decompiled text does not compile: %s" % first)
-        return ("bytes-differ:%s:%s:%s" % (lang.cmd, lang.game, where),
+            return ("recompile-fails:%s:%s:%s" % (fmt, where, first), "decompiled text does not compile: %s" % first)
+        return ("bytes-differ:%s:%s" % (fmt, where),
                 "recompiled file differs from the original (%s vs %s bytes)" % (m.get("out_len"), m.get("in_len")))
-    return ("%s:%s:%s:%s" % ("+".join(sorted(why)), lang.cmd, lang.game, where), "event rejected by the contract: %s" % ", ".join(sorted(why)))
+    return ("%s:%s:%s" % ("+".join(sorted(why)), fmt, where), "event rejected by the contract: %s" % ", ".join(sorted(why)))
 
 
 def report_rejections(chk, binaries, rejected):
@@ -1092,7 +1156,10 @@ def run(chk, replay=None):
         for j, (path, lang) in enumerate(bundled_binaries()):
             mf = gen_mapfile(random.Random(1000 + j), lang) if lang.mapmagic else None
             binaries.append(Binary(j, lang, "bundled", path=path, mapfile=mf))
-        gen = make_binaries(chk, QUICK_PLAN, start_idx=len(binaries), scale=1 if quick else 20)
+        for lk, flavour, text in probe_sources():
+            binaries.append(Binary(len(binaries), LANGS[lk], "generated", source=text, flavour=flavour,
+                                   mapfile=gen_mapfile(random.Random(2000 + len(binaries)), LANGS[lk])))
+        gen = make_binaries(chk, QUICK_PLAN, start_idx=len(binaries), scale=1 if quick else 25)
         binaries += gen
         todo = []
         for b in binaries:
